@@ -27,6 +27,7 @@ ASSUMPTIONS = [
 # fn -> list of (index in ab result, index in ba result); None = scalar
 SWAP = {
     "beat.f_measure": [(None, None)],
+    "beat.evaluate": [("F-measure", "F-measure")],
     "onset.f_measure": [(0, 0), (1, 2), (2, 1)],
     "segment.detection": [(0, 1), (1, 0), (2, 2)],
     "segment.deviation": [(0, 1), (1, 0)],
@@ -95,6 +96,16 @@ def instances(r):
     nt = ("ev", ref, est, w) if ref.size != est.size else None
     out.append(two("beat.f_measure", (ref, est), (est, ref), {"f_measure_threshold": w}, nt))
     out.append(two("onset.f_measure", (ref, est), (est, ref), {"window": w}, nt))
+    # evaluate() trims both sides at the same (possibly non-default) time
+    mbt = r.choice([5.0, 0.0, 2.0, 7.0])
+    bref = gen.events(r, kind=r.choice(["regular", "jitter"]))
+    best = gen.related_events(r, bref)
+    # (sequences squeezed into one 10 ms bin hit a listed C14 finding: not used here)
+    if bref.size >= 3 and best.size >= 3 and np.ptp(bref[bref >= mbt]) > 1 \
+            and np.ptp(best[best >= mbt]) > 1 if (bref >= mbt).sum() >= 3 and \
+            (best >= mbt).sum() >= 3 else False:
+        out.append(two("beat.evaluate", (bref, best), (best, bref), {"min_beat_time": mbt},
+                       ("beat-eval", bref, best, mbt) if bref.size != best.size else None))
     # segments (same span)
     s = tasks.gen_segment(r, allow_empty=False)
     a4 = (s["ref_iv"], s["ref_lab"], s["est_iv"], s["est_lab"])
